@@ -8,7 +8,9 @@ sys.path.insert(0, os.path.dirname(os.path.abspath(__file__)))
 from lib import *
 
 WRONG_ENCODING, DISALLOWED_CHAR, DISALLOWED_INITIAL = 110, 104, 109
-MAGICS = {'none': '', '1.0': '#\\#CIF_1.0\n', '1.1': '#\\#CIF_1.1\n', '2.0': '#\\#CIF_2.0\n', '2.0-late': '\n#\\#CIF_2.0\n', '2.0-glued': '#\\#CIF_2.0x\n'}
+MAGICS = {'none': '', '1.0': '#\\#CIF_1.0\n', '1.1': '#\\#CIF_1.1\n', '2.0': '#\\#CIF_2.0\n', '2.0-late': '\n#\\#CIF_2.0\n', '2.0-glued': '#\\#CIF_2.0x\n',
+          # the version comment ended by the other line terminators and by blanks
+          '2.0-crlf': '#\\#CIF_2.0\r\n', '2.0-cr': '#\\#CIF_2.0\r', '2.0-blank': '#\\#CIF_2.0 \t\n', '1.1-crlf': '#\\#CIF_1.1\r\n'}
 P2 = [-5, -1, 0, 1, 19, 20, 25]
 ENCS = ['utf-8', 'utf-16-le', 'utf-16-be', 'utf-32-le', 'utf-32-be', 'iso-8859-1']
 ICU_NAME = {'utf-8': 'UTF-8', 'utf-16-le': 'UTF-16LE', 'utf-16-be': 'UTF-16BE', 'utf-32-le': 'UTF-32LE', 'utf-32-be': 'UTF-32BE', 'iso-8859-1': 'ISO-8859-1', 'us-ascii': 'US-ASCII'}
